@@ -6,6 +6,7 @@ package main
 // The semantics implemented here are those of coq/model/EngineBase.v (RefStore / RefStream / RefTimeout).
 
 import (
+	"math/big"
 	"sync/atomic"
 	"context"
 	"encoding/json"
@@ -290,6 +291,8 @@ func topicTok(t string) string {
 		return "r"
 	case strings.HasPrefix(t, "wf-"):
 		return "s" + strings.TrimPrefix(t, "wf-")
+	case strings.HasPrefix(t, "conn-"):
+		return "k" + strings.TrimPrefix(t, "conn-")
 	}
 	return "?" + t
 }
@@ -701,6 +704,7 @@ var (
 	rePoll = regexp.MustCompile(`^wf-(-?\d+)-timeout-consumer$`)
 	reIns  = regexp.MustCompile(`^wf-(-?\d+)-timeout-auto-inserter-consumer$`)
 	reSched = regexp.MustCompile(`^wf-f(\d+)-scheduler-`)
+	reConn = regexp.MustCompile(`^conn(\d+)-connector-to-wf-consumer-(\d+)-of-(\d+)$`)
 	reHook = regexp.MustCompile(`^wf-(paused|cancelled|completed)-run-state-change-hook-consumer$`)
 )
 
@@ -718,6 +722,9 @@ func parseRole(role string) string {
 	}
 	if m := rePoll.FindStringSubmatch(role); m != nil {
 		return "p" + m[1]
+	}
+	if m := reConn.FindStringSubmatch(role); m != nil {
+		return fmt.Sprintf("k%s.%s.%s", m[1], m[2], m[3])
 	}
 	if m := reIns.FindStringSubmatch(role); m != nil {
 		return "i" + m[1]
@@ -765,4 +772,74 @@ func (c simClock) NewTimer(d time.Duration) clock.Timer {
 		t.ch <- c.Now()
 	}
 	return t
+}
+
+// ------------------------------------------------------------------ connector source (connector.go ConnectorConstructor)
+// The events of connector cid live in the simulation log under the pseudo-topic "conn-<cid>" (as in the Coq model); a consumer
+// reads them from the committed position of its name, exactly like a stream receiver.
+type simConnector struct {
+	s   *sim
+	cid int
+}
+
+type simConnConsumer struct {
+	s     *sim
+	p     *proc
+	topic string
+	name  string
+}
+
+func (c simConnector) Make(ctx context.Context, consumerName string) (workflow.ConnectorConsumer, error) {
+	s := c.s
+	p := procOf(ctx)
+	d := s.enter(p, "NR", 0)
+	s.emit(p, fmt.Sprintf("NR:=%s:", dispRes(d)))
+	if d != dOk {
+		return nil, dispErr(d)
+	}
+	s.openReceivers.Add(1)
+	return &simConnConsumer{s: s, p: p, topic: fmt.Sprintf("conn-%d", c.cid), name: consumerName}, nil
+}
+
+func (r *simConnConsumer) Recv(ctx context.Context) (*workflow.ConnectorEvent, workflow.Ack, error) {
+	s := r.s
+	p := r.p
+	d := s.enter(p, "RV", 0)
+	if d != dOk {
+		s.emit(p, fmt.Sprintf("RV:=%s:", dispRes(d)))
+		if d == dErrAfter {
+			return nil, nil, errInjected
+		}
+		return nil, nil, dispErr(d)
+	}
+	idx, e := s.nextEvent(r.topic, r.name)
+	if e == nil {
+		panic("connector Recv granted without an available event")
+	}
+	s.emit(p, "RV="+s.eventTok(e))
+	ce := &workflow.ConnectorEvent{ID: e.Headers["cev_id"], ForeignID: e.Headers[workflow.HeaderForeignID], CreatedAt: e.CreatedAt}
+	ack := func() error {
+		d := s.enter(p, "AK", 0)
+		s.emit(p, fmt.Sprintf("AK:%d=%s", e.ID, dispRes(d)))
+		if d == dOk || d == dErrAfter || d == dStale {
+			s.cursors[r.name] = idx + 1
+		}
+		return dispErr(d)
+	}
+	return ce, ack, nil
+}
+
+func (r *simConnConsumer) Close() error {
+	r.s.openReceivers.Add(-1)
+	d := r.s.enter(r.p, "CL", 0)
+	r.s.emit(r.p, fmt.Sprintf("CL:=%s:", dispRes(d)))
+	return dispErr(d)
+}
+
+// connView prints the record by which the model's token names a connector event (Engine.v conn_view)
+func connView(s *sim, ce *workflow.ConnectorEvent) string {
+	ge, err := workflow.VerifConnectorEventToEvent(&workflow.ConnectorEvent{ID: ce.ID})
+	must(err)
+	abs := new(big.Int).Abs(big.NewInt(ge.ID))
+	return fmt.Sprintf("%s.0.%d.0.D.%d.%d.?.%d", abs.String(), ge.ID, s.ns(ce.CreatedAt), s.ns(ce.CreatedAt), fidN(ce.ForeignID))
 }
